@@ -9,7 +9,7 @@ THEOREMS = [
     "C28_commit_symlink_refuted", "C28_commit_files",
     "C28_rm_file_eq", "C28_rm_dir_missing_refuted", "C28_rm_untracked_dir_refuted",
     "C28_rm_below_file_refuted", "C28_rm_deleted_dir_refuted",
-    "C28_mv_eq_partial", "C28_mv_stat_refuted", "C28_mv_mkdir_refuted",
+    "C28_mv_eq_partial", "C28_mv_replaces_tracked_dest", "C28_mv_stat_refuted", "C28_mv_mkdir_refuted",
     "C28_clean_d_eq_partial", "C28_clean_subdir_refuted",
     "C28_clean_ignored_dir_refuted", "C28_add_below_tracked_file_refuted",
     "C28_add_ignored_refuted", "C28_add_filemode_refuted", "C28_add_replaced_dir_refuted",
@@ -23,7 +23,8 @@ MODEL_FILES = ["Status.v", "IndexOps.v", "CommitHead.v", "WriteTree.v", "TreeObj
 MODELLED = ("worktree_status.go doAdd / doAddDirectory / doAddFile (file, directory, All), AddGlob (go-billy util.Glob component by "
             "component, filepath.Match restricted to literals, '*' and '?'), doUpdateFileToIndex (mode, size, mtime from the file), "
             "Remove / doRemoveDirectory / doRemoveFile, RemoveGlob (index.Glob's whole-name match, doRemoveFile, "
-            "removeEmptyDirectory incl. its failure on a missing directory), Move; worktree.go Clean / doClean; "
+            "removeEmptyDirectory incl. its failure on a missing directory), Move (incl. a destination that is still an index entry: "
+            "addOrUpdateFileToIndex replaces it); worktree.go Clean / doClean; "
             "worktree_commit.go Commit: CommitOptions.Validate (parents default to HEAD), Amend, both empty-commit tests, "
             "updateHEAD (Model/CommitHead.v); buildTreeHelper.BuildTree (commitIndexEntry, doBuildTree with the never-written "
             "h.entries, zero-hash skip) and copyTreeToStorageRecursive (per-directory sort by sortName, Tree.Encode with "
@@ -44,6 +45,8 @@ RULE = ("case = flattened (HEAD, index, worktree) state + one operation from {ad
         "rm glob, mv, clean, clean -d, commit (tree listing and tree id), commit on {unborn branch, branch, detached HEAD} x "
         "{plain, amend of a root / of a commit with a parent / of a merge} x {staged change, nothing staged, empty index} x "
         "AllowEmptyCommits x merge in progress} aimed at tracked / untracked / deleted / ignored / replaced-by-directory paths; "
+        "mv also onto a destination that is {tracked and present, tracked and deleted on disk, tracked in HEAD with the deletion staged, "
+        "untracked and present, absent} from a source that is {tracked clean, tracked modified, newly staged}; "
         "non-trivial = the operation changes the index, the worktree or produces a tree; distinct by content")
 
 MODE = {"f": 0, "x": 1, "l": 2}
